@@ -302,6 +302,12 @@ class Model:
         self.hmeta_unknown = False
         return "ok"
 
+    def op_set_layer_md(self, op):
+        if self.hmeta_unknown:
+            raise Ambiguous("hypergraph metadata after clear")
+        self.hmeta["multiplex_metadata" if op.get("dataset") else op["layer"]] = jcopy(op["md"])
+        return "ok"
+
     def op_set_attr_hg(self, op):
         if self.hmeta_unknown:
             raise Ambiguous("hypergraph metadata after clear")
@@ -441,6 +447,8 @@ class Model:
             o["max_order"] = max(sizes) - 1
         o["nbr"] = {tag(n): sorted({tag(m) for q in E if n in self.knodes(q) for m in self.knodes(q)} - {tag(n)})
                     for n in self.nodes}
+        o["isolated"] = sorted(n for n, v in o["nbr"].items() if not v)
+        o["is_isolated"] = {n: (not v) for n, v in o["nbr"].items()}
         dd = {}
         for d in o["deg"].values():
             dd[str(d)] = dd.get(str(d), 0) + 1
@@ -459,6 +467,8 @@ class Model:
             o[f"nbr/size={s}"] = {
                 tag(n): sorted({tag(m) for q in sel if n in self.knodes(q) for m in self.knodes(q)} - {tag(n)})
                 for n in self.nodes}
+            o[f"isolated/size={s}"] = sorted(n for n, v in o[f"nbr/size={s}"].items() if not v)
+            o[f"is_isolated/size={s}"] = {n: (not v) for n, v in o[f"nbr/size={s}"].items()}
             o[f"deg/size={s}"] = {tag(n): sum(1 for q in sel if n in self.knodes(q)) for n in self.nodes}
             dd = {}
             for d in o[f"deg/size={s}"].values():
